@@ -433,6 +433,11 @@ class Interp:
                         return ('regex', e.id, mod_.fold(node_.args[0], ''), mod_.fold(node_.args[1], '') if len(node_.args) > 1 else 0)
                     except Exception:      # pylint: disable=broad-except
                         pass
+            if e.id in h.module.consts.get('', {}) and isinstance(h.module.consts[''][e.id], dict):
+                d_ = h.new_dict()
+                for k_, v_ in h.module.consts[''][e.id].items():
+                    h.objs[d_.name]['entries'].append((k_, h.new_list(list(v_)) if isinstance(v_, list) else v_))
+                return d_
             if e.id in h.module.consts.get('', {}) and isinstance(h.module.consts[''][e.id], (str, bytes, int, tuple, list, frozenset)):
                 v = h.module.consts[''][e.id]
                 if isinstance(v, bytes) and getattr(h, 'symbolic_strings', False):
